@@ -517,6 +517,21 @@ class Interp:
         return outs
 
     def char_eq(self, cond, env):
+        """`c == '}'` (either side) on a character taken from a char_indices() walk: in the then-branch the character at its position is
+        that literal, so position + its utf-8 length is a boundary (the if-form of the match arm handled in match_expr)"""
+        n = cond
+        while n.get("k") == "Paren":
+            n = n["expr"]
+        if n.get("k") != "Binary" or n.get("op") != "==":
+            return None
+        for a, b in ((n["left"], n["right"]), (n["right"], n["left"])):
+            if b.get("k") == "Lit" and a.get("k") == "Path":
+                v = env.get(a["path"])
+                mlit = re.match(r"^'(.*)'$", str(b.get("text", "")).strip())
+                if isinstance(v, Char) and v.root is not None and mlit:
+                    ch = mlit.group(1).encode("utf8").decode("unicode_escape") if "\\" in mlit.group(1) else mlit.group(1)
+                    self.cx.seg(v.root, v.pos, v.pos + Lin(len(ch.encode("utf8"))), "delim", ch)
+                    return ch
         return None
 
     def match_expr(self, n, env):
@@ -731,6 +746,8 @@ class Interp:
             return [recv, args[0]]
         if m == "unwrap_or_default" and isinstance(recv, Lin):
             return [recv, Lin(0)]
+        if m in ("ok_or", "ok_or_else", "map_err") and isinstance(recv, (Slice, Lin, Tup)):
+            return [recv]           # Some(x) / Ok(x) are modelled as x: these only change the error side
         if isinstance(recv, Slice):
             s = recv
             if m in ("split_once", "rsplit_once") and argn:
